@@ -33,7 +33,7 @@ git -C /repo worktree remove --force $wt
 if [ -n "$(git -C /repo status --porcelain)" ]; then res "REPO-NOT-CLEAN"; exit 2; fi
 git -C /repo apply $src/patch.diff || { res "APPLY-TO-REPO-FAILED"; exit 2; }
 for c in "$@"; do
-  /verif/check $c quick -no-evidence > $out/check_$c.log 2>&1; e=$?
+  ${VERIF_CHECK:-/verif/check} $c quick -no-evidence > $out/check_$c.log 2>&1; e=$?
   res "check $c exit=$e $(grep -c '^VIOLATION' $out/check_$c.log) violation line(s); $(grep '^violation:' $out/check_$c.log | head -2 | cut -c1-220 | tr '\n' '|')"
 done
 git -C /repo checkout -- . ; git -C /repo status --porcelain | head -3
